@@ -42,7 +42,7 @@ MIL = [0x00000000, 0x40000000, 0x7FFFFF7F, 0x80000000, 0x40000080, 0x7FFFFF80, 0
        0x4000007F, 0xC0000001]
 
 
-TIES = ["NumericDataEncoding._twos_complement = Model/Decode.v twos_complement (gen_twos_complement_is_model)",
+TIES = ["NumericDataEncoding._twos_complement = Model/Decode.v twos_complement (gen_twos_complement_is_model; generated_twos_complement_inverse)",
         "IntegerDataEncoding._get_raw_value = raw_numeric on integer encodings (gen_int_raw_is_model; generated_int_raw_meets_C04, generated_int_raw_lsb_meets_C04)"]
 
 
